@@ -697,7 +697,10 @@ def materialize(world, root: str, schema_partition=None, queries_partition=None,
                 qname = single_file_names[1] if single_file_names else "queries.graphql"
                 cfg["queries_path"] = qname
                 writes.append((qname, queries_of(world)))
-        cfg.setdefault("target_package_path", "out")
+        if world.get("default_target_path"):
+            cfg.pop("target_package_path", None)          # the documented default: the working directory
+        else:
+            cfg.setdefault("target_package_path", "out")
         os.makedirs(os.path.join(root, "out"), exist_ok=True)
     else:
         cfg["target_file_path"] = os.path.join("out", cfg.get("target_file_path", "schema.py"))
@@ -756,7 +759,7 @@ def materialize(world, root: str, schema_partition=None, queries_partition=None,
     with open(config_path, "w", encoding="utf-8") as f:
         f.write(toml_dumps(cfg))
     if world["strategy"] == "client":
-        targets = [os.path.join(root, cfg["target_package_path"], cfg.get("target_package_name", "graphql_client"))]
+        targets = [os.path.join(root, cfg.get("target_package_path", ""), cfg.get("target_package_name", "graphql_client"))]
     else:
         targets = [os.path.join(root, cfg["target_file_path"])]
     return {"argv": [world["strategy"]], "config_path": config_path, "targets": targets, "cfg": cfg}
